@@ -418,6 +418,35 @@ Theorem C08_short_respell_line : forall c0 bin,
 Proof. exact short_respell_top. Qed.
 Print Assumptions C08_short_respell_line.
 
+(** the occurrence behind a prefix of separate flag tokens (successful lines) *)
+Theorem C08_flags_prefix_congr : forall c X Y,
+  (forall t vaf, possible_subcommand c (45 :: t) vaf = None) ->
+  forall chs ls st,
+  Forall (fun ch => ch < 128 /\ ch <> 45 /\ exists a, get_short c ch = Some a /\ a_takes_value a = false) chs ->
+  l_trailing ls = false -> l_pst ls = PSValuesDone -> no_hyphen_pos c (l_pos ls) -> fs_skip st = 0 ->
+  (forall ls' st' lr, l_trailing ls' = false -> l_pst ls' = PSValuesDone -> l_pos ls' = l_pos ls -> fs_skip st' = 0 ->
+     parse_loop c X ls' st' = ROk lr -> res_rel c (parse_loop c Y ls' st') (ROk lr)) ->
+  forall lr, parse_loop c (map (fun ch => [45; ch]) chs ++ X) ls st = ROk lr ->
+  res_rel c (parse_loop c (map (fun ch => [45; ch]) chs ++ Y) ls st) (ROk lr).
+Proof. exact flags_prefix_congr. Qed.
+Print Assumptions C08_flags_prefix_congr.
+
+Theorem C08_after_flags_long_space_vs_eq_line : forall c0 bin chs l v a r tokA tokB rest m,
+  is_set s_no_binary_name c0 = false ->
+  let c := build_self (top_cmd c0 bin) in
+  is_set s_ignore_errors c = false -> is_set s_sub_precedence c = false ->
+  (forall t vaf, possible_subcommand c (45 :: t) vaf = None) ->
+  Forall (fun ch => ch < 128 /\ ch <> 45 /\ exists a, get_short c ch = Some a /\ a_takes_value a = false) chs ->
+  no_hyphen_pos c 1 ->
+  is_escape tokA = false -> is_escape tokB = false ->
+  possible_subcommand c tokA false = None -> possible_subcommand c tokB false = None ->
+  to_long tokA = Some (l, true, Some v) -> to_long tokB = Some (l, true, None) ->
+  lookup_long c l = Some a -> single_opt c a r -> plain_value a v ->
+  parse_top c0 (bin :: map (fun ch => [45; ch]) chs ++ tokA :: rest) = OOk m ->
+  parse_top c0 (bin :: map (fun ch => [45; ch]) chs ++ tokB :: v :: rest) = OOk m.
+Proof. exact after_flags_long_space_vs_eq_top. Qed.
+Print Assumptions C08_after_flags_long_space_vs_eq_line.
+
 (** observation: the success hypothesis is needed (different error kinds for a rejected value) *)
 Theorem C08_spelling_needs_success_witness : exists c0 tokA tokB v rest,
   out_kind (parse_top c0 ([112] :: tokA :: rest)) = Some EInvalidUtf8 /\
